@@ -794,7 +794,11 @@ def step (d : DS) (line : String) : DS × Option String :=
     | "alg" =>
       let op := rest.headD ""
       let args := (rest.drop 1).map (fun s => (parseRat s).getD 0)
-      let (d, s) := out d ("alg." ++ op) (AlgDriver.run op args); (d, some s)
+      let r := out d ("alg." ++ op) (AlgDriver.run op args)
+      let r := match AlgDriver.spec op args with
+        | some sp => also r d ("alg." ++ op ++ ".spec") sp
+        | none => r
+      (r.1, some r.2)
     | "poison" =>
       let (seed, _) := t.nat
       ({ d with w := poison d.m d.w seed }, none)
